@@ -888,8 +888,11 @@ lines_containing_data		(unsigned int		start[2],
 			assert (par->first[field] <= par->last[field]);
 
 			if ((unsigned int) par->first[field] > last
-			    || (unsigned int) par->last[field] < first)
+			    || (unsigned int) par->last[field] < first) {
+				/* None of its lines is sampled. */
+				count[field] = 0;
 				continue;
+			}
 
 			first = MAX (first, (unsigned int) par->first[field]);
 			last = MIN ((unsigned int) par->last[field], last);
